@@ -14,6 +14,8 @@ ClsQuick == ClsAll \ {"EllipseAnnulusPix", "EllipseAnnulusSky", "RectangleAnnulu
 ClsQuickCopy == ClsAll \ {"EllipseAnnulusPix", "EllipseAnnulusSky", "RectangleAnnulusSky"}
 ClsFew == {"CirclePix", "EllipseSky", "CircleAnnulusPix", "PolygonPix", "CompoundPix"}
 ActsParams == {"construct", "construct_bad", "assign", "delete"}
+ActsCtor == {"construct", "construct_bad"}
+ClsQuickRest == ClsAll \ ClsQuick            \* the classes the quick tier leaves out of the full parameter run: constructors only
 ActsMeta == {"construct", "meta", "metaassign"}
 ActsCopy == {"construct", "assign", "meta", "copy", "copywith"}
 ActsAll == {"construct", "construct_bad", "assign", "delete", "meta", "metaassign", "copy", "copywith"}
